@@ -247,7 +247,7 @@ func adversarial(seed uint64, idx int) ([]byte, string) {
 			return fmt.Sprintf("roots=%v", r.rootList)
 		},
 		func() string {
-			ci := rng.Intn(4)
+			ci := rng.Intn(len(r.cellsRaw))
 			if len(r.cellsRaw[ci].refs) == 0 {
 				r.cellsRaw[ci].refs = []uint64{0}
 				r.cellsRaw[ci].d1 |= 1
@@ -269,7 +269,7 @@ func adversarial(seed uint64, idx int) ([]byte, string) {
 			return fmt.Sprintf("cell%d.ref0=%d", ci, v)
 		},
 		func() string {
-			ci := rng.Intn(4)
+			ci := rng.Intn(len(r.cellsRaw))
 			n := rng.Range(5, 7)
 			r.cellsRaw[ci].d1 = r.cellsRaw[ci].d1&^7 | byte(n)
 			if rng.Bool() { // actually supply that many refs
@@ -282,7 +282,7 @@ func adversarial(seed uint64, idx int) ([]byte, string) {
 			return fmt.Sprintf("cell%d.refcount=%d", ci, n)
 		},
 		func() string {
-			ci := rng.Intn(4)
+			ci := rng.Intn(len(r.cellsRaw))
 			r.cellsRaw[ci].d1 |= 16 // with hashes but no room
 			if rng.Bool() {
 				r.cellsRaw[ci].pre = rng.Bytes(rng.Intn(34))
@@ -291,7 +291,7 @@ func adversarial(seed uint64, idx int) ([]byte, string) {
 			return fmt.Sprintf("cell%d.with_hashes-short", ci)
 		},
 		func() string {
-			ci := rng.Intn(4)
+			ci := rng.Intn(len(r.cellsRaw))
 			r.cellsRaw[ci].d1 |= byte(rng.Range(1, 7)) << 5
 			if rng.Bool() {
 				r.cellsRaw[ci].d1 |= 16
@@ -299,7 +299,7 @@ func adversarial(seed uint64, idx int) ([]byte, string) {
 			return fmt.Sprintf("cell%d.mask", ci)
 		},
 		func() string {
-			ci := rng.Intn(4)
+			ci := rng.Intn(len(r.cellsRaw))
 			r.cellsRaw[ci].d1 |= 8 // exotic
 			switch rng.Intn(4) {
 			case 0:
@@ -326,12 +326,12 @@ func adversarial(seed uint64, idx int) ([]byte, string) {
 			return fmt.Sprintf("cell%d.exotic-malformed", ci)
 		},
 		func() string {
-			ci := rng.Intn(4)
+			ci := rng.Intn(len(r.cellsRaw))
 			r.cellsRaw[ci].d2 = byte(rng.Intn(256))
 			return fmt.Sprintf("cell%d.d2=%d", ci, r.cellsRaw[ci].d2)
 		},
 		func() string {
-			ci := rng.Intn(4)
+			ci := rng.Intn(len(r.cellsRaw))
 			// odd d2 with a last byte of zero: no completion tag
 			r.cellsRaw[ci].d2 = 3
 			r.cellsRaw[ci].data = []byte{0x55, 0x00}
@@ -342,13 +342,42 @@ func adversarial(seed uint64, idx int) ([]byte, string) {
 		func() string { r.crc = 1; r.trailing = rng.Bytes(rng.Range(1, 9)); return "trailing" },
 		func() string {
 			r.hasIdx = true
-			r.index = []uint64{r.index[3], r.index[0], 0, 0xff}
+			r.index = []uint64{r.index[len(r.index)-1], r.index[0], 0, 0xff}
 			return "index-unsorted"
 		},
 		func() string { r.hasIdx = true; r.cache = true; return "cache-bits" },
 		func() string {
 			r.flagByte = rng.Intn(256)
 			return fmt.Sprintf("flagbyte=%d", r.flagByte)
+		},
+		func() string {
+			// a pruned branch with 2-3 stored levels whose payload ends somewhere between "all hashes" and
+			// "all hashes and all depths", under a parent that asks for one of its lower levels
+			m := mon.Pick(rng, []byte{3, 5, 6, 7})
+			k := 0
+			for x := m; x != 0; x &= x - 1 {
+				k++
+			}
+			n := 2 + 32*k - 2 + rng.Intn(2*k+5) // 2+32k-2 .. 2+34k+2
+			payload := append([]byte{1, m}, rng.Bytes(n-2)...)
+			for i := 2 + 32*k; i < len(payload); i += 2 {
+				payload[i] = 0 // small depths so that the depth limit does not fire first
+			}
+			child := rawCell{d1: 8 | m<<5, d2: byte(2 * len(payload)), data: payload}
+			var parent rawCell
+			switch rng.Intn(3) {
+			case 0: // ordinary parent carrying the same mask
+				parent = rawCell{d1: 1 | m<<5, d2: 2, data: []byte{0x55}, refs: []uint64{1}}
+			case 1: // Merkle proof parent
+				parent = rawCell{d1: 1 | 8 | (m>>1)<<5, d2: 2 * 35, data: append([]byte{3}, rng.Bytes(34)...), refs: []uint64{1}}
+			default: // Merkle update parent (both refs to the child)
+				parent = rawCell{d1: 2 | 8 | (m>>1)<<5, d2: 2 * 69, data: append([]byte{4}, rng.Bytes(68)...), refs: []uint64{1, 1}}
+			}
+			r.cellsRaw = []rawCell{parent, child}
+			r.cells = 2
+			r.size, r.off = 1, 2
+			r.fix()
+			return fmt.Sprintf("pruned-mask%d-len%d-under-parent", m, n)
 		},
 		func() string {
 			// deep chain of minimal cells: cell i -> i+1 (depth n-1)
@@ -393,7 +422,7 @@ func adversarial(seed uint64, idx int) ([]byte, string) {
 	first := idx % len(lies)
 	desc = append(desc, lies[first]())
 	for k := 1; k < nl; k++ {
-		desc = append(desc, lies[rng.Intn(len(lies)-2)]()) // not the two big generators
+		desc = append(desc, lies[rng.Intn(len(lies)-3)]()) // not the pruned-window and the two big generators
 	}
 	return r.bytes(), strings.Join(desc, "+")
 }
@@ -482,6 +511,36 @@ func unfolded(root *tboc.Cell, limit int) int {
 	return f(root)
 }
 
+// printCost estimates the characters Cell.ToString copies for this root on a correct
+// implementation: min(unfolded cells, 65536 + slack) lines x average line length x depth.
+func printCost(root *tboc.Cell) int {
+	lines := unfolded(root, 70000)
+	depth := depthOf(root, 3000)
+	if depth > 3000 {
+		return 1 << 62
+	}
+	seen := map[*tboc.Cell]bool{}
+	bits, cells := 0, 0
+	var walk func(c *tboc.Cell)
+	walk = func(c *tboc.Cell) {
+		if seen[c] || cells > 70000 {
+			return
+		}
+		seen[c] = true
+		cells++
+		bits += c.BitSize()
+		for _, r := range c.Refs() {
+			walk(r)
+		}
+	}
+	walk(root)
+	if cells == 0 {
+		return 0
+	}
+	lineLen := bits/cells/4 + depth/2 + 5
+	return lines * lineLen * (depth + 1)
+}
+
 // depthOf returns the depth of the DAG, capped.
 func depthOf(root *tboc.Cell, limit int) int {
 	memo := map[*tboc.Cell]int{}
@@ -553,9 +612,12 @@ func observe(w mon.Sink, wk *mon.Worker, class, id string, in []byte, desc strin
 				break
 			}
 			ops := []string{"Hash", "ToBoc", "ToString"}
-			if unfolded(root, 5000) > 5000 || depthOf(root, 200) > 200 {
-				// ToString prints the unfolded tree (up to 65536 cells), copying the text once per level of depth;
-				// it terminates but a CPU bound on it would be our demand, not the statement's
+			if printCost(root) > 200_000_000 {
+				// ToString prints the unfolded tree (its own budget: 65536 cells), copying the text once per level
+				// of depth. On deep trees with fat cells that is slow but terminating, and a CPU bound there
+				// would be our demand, not the statement's: such roots are skipped by an estimate of the
+				// characters copied (lines x line length x depth). DAGs with a huge unfolding but a modest
+				// estimate are printed: the budget must keep the output bounded
 				ops = ops[:2]
 				w.Count("tostring_skipped_large_unfolding", 1)
 			}
